@@ -12,7 +12,7 @@ use serde_json::json;
 use std::cell::RefCell;
 use std::time::Duration;
 
-pub const RULE: &str = "legal games from reference-model walks: root = startpos or a generated legal FEN (repository FENs, themes, random placements), 0-250 plies chosen with weights that make castling (both sides, both wings), en passant and all four promotion pieces occur; the text sent is 'position startpos|fen <reference FEN> moves <long algebraic>'. On the shipped binary (one process per worker serves thousands of cases): the 'FEN:' line of 'd fen' must equal the reference FEN of the final position; the move set printed by 'd perftdiv 1' must equal the reference legal moves in long algebraic form (lower-case promotion letter, castling as the king's two-square move); 'go depth 1' must answer with a member of that set. End of output or a panic line is a violation with the session as replay. In-process: parser::parse of the same line must yield the same (from, to, promotion) triples. Non-trivial = game containing castling, en passant or a promotion; distinct by command text.";
+pub const RULE: &str = "legal games from reference-model walks: root = startpos or a generated legal FEN (repository FENs, themes, random placements), 0-250 plies chosen with weights that make castling (both sides, both wings), en passant and all four promotion pieces occur; the text sent is 'position startpos|fen <reference FEN> moves <long algebraic>'. On the shipped binary (one process per worker serves thousands of cases): the 'FEN:' line of 'd fen' must equal the reference FEN of the final position; the move set printed by 'd perftdiv 1' must equal the reference legal moves in long algebraic form (lower-case promotion letter, castling as the king's two-square move); 'go depth 1' must answer with a member of that set. End of output or a panic line is a violation with the session as replay. In-process: parser::parse of the same line must yield the same (from, to, promotion) triples, and every legal reply of the final position must be printed identically to the reference long-algebraic text by UciMove::notation (bestmove, pv) and by Move's Debug form (perftdiv). Non-trivial = game containing castling, en passant or a promotion; distinct by command text.";
 
 #[derive(Serialize, Deserialize, Clone, Debug)]
 pub enum Case {
@@ -127,6 +127,23 @@ fn check(g: &Game17, st: &mut Stats) -> Result<(), Fail> {
         }
     } else if st.want_sample() {
         st.sample(json!({"command": cmd, "final_fen": g.finalpos.to_fen()}));
+    }
+    // in-process: every legal reply of the final position is printed in long algebraic form by both
+    // printers the engine uses (UciMove::notation for bestmove / pv, Debug for Move for perftdiv)
+    {
+        let eg = to_game(&g.finalpos);
+        for m in g.finalpos.legal_moves() {
+            if let Some(em) = find_move(&eg, &m) {
+                let via_uci = crate::engine::uci::UciMove::from(em).notation();
+                let via_debug = format!("{em:?}");
+                if via_uci != m.uci() || via_debug != m.uci() {
+                    return Err(Fail::new("printer:move_text", format!("at {} the move {} is printed as '{via_uci}' (bestmove / pv) and '{via_debug}' (perftdiv)", g.finalpos.to_fen(), m.uci())).explicit(ex()));
+                }
+                if m.promo.is_some() {
+                    st.class("promotion_reply_text_checked");
+                }
+            }
+        }
     }
     // in-process: the parser reads the same triples
     match parser::parse(&cmd) {
